@@ -228,6 +228,14 @@ def systematic(Case, cwd, thorough=False):
         # filters on every target source
         mk.add("source", titems + [("drop", "[13]$")], "sep", files=tfiles, wcoll_env=wenv, note=tl + "/drop")
         mk.add("source", [("keep", "^foo")] + titems, "dash", files=tfiles, wcoll_env=wenv, note=tl + "/keep")
+    # blanks behind the dash / in front of a word (wcoll_arg_process skips them before it looks for ^ and /)
+    f = mk.fname("x")
+    mk.add("source", [("tgt", "foo[1-6],bar"), ("xcl", "foo[2-3]"), ("xcl", "bar")], files={},
+           opts=[("-w", "foo[1-6],bar,- foo[2-3]"), ("-x", " bar")], note="blank-after-dash")
+    mk.add("source", [("tgt", "foo[1-6],bar"), ("xfile", f), ("drop", "^b")], files={f: ["foo[2-3]"]},
+           opts=[("-w", "foo[1-6],bar,- ^" + f), ("-x", " /^b/")], note="blank-after-dash")
+    mk.add("source", [("tgt", "foo[1-6],bar"), ("xfile", f), ("keep", "[1-5]$")], files={f: ["foo[2-3]"]},
+           opts=[("-x", "\t^" + f), ("-w", "foo[1-6],bar"), ("-w", " /[1-5]$/")], note="blank-after-dash")
     # a target file with comments, blank lines and an include
     f, g = mk.fname("t"), mk.fname("inc")
     mk.add("source", [("tfile", f), ("xcl", "foo2,bar")], "sep", files={f: ["foo[1-3]", "bar", "foo2", "baz"]},
